@@ -78,6 +78,10 @@ Topos(kd) ==
   \cup (IF kd.k \in {"leaf", "branch", "nested"}
         THEN {[t |-> "omit", hasp |-> FALSE, p |-> <<n>>, sub |-> <<>>] : n \in {"P", "Q"}}
         ELSE {})
+  \* a glob port wired by {'*': path}: every child is looked up below the path
+  \* (the same nodes as with the plain path, through another branch of the code)
+  \cup (IF kd.k # "glob" THEN {}
+        ELSE {[t |-> "gpath", hasp |-> FALSE, p |-> p, sub |-> <<>>] : p \in RelPaths})
   \cup (IF kd.k # "glob" THEN {}    \* (glob2 only with plain paths)
         ELSE {[t |-> "gdict", hasp |-> TRUE, p |-> p, sub |-> s] :
                 p \in {<<"x">>, <<UP, "y">>, <<"x", "w">>}, s \in GlobSubMaps(kd)})
@@ -89,7 +93,7 @@ Topos(kd) ==
 
 \* ---- the resolution function
 R(base, tp, v) ==
-  IF tp.t \in {"path", "omit"} THEN Norm(base \o tp.p) \o v
+  IF tp.t \in {"path", "omit", "gpath"} THEN Norm(base \o tp.p) \o v
   ELSE IF tp.t = "gdict" THEN
        \* v = <<child, variable>>
        IF v[2] \in DOMAIN tp.sub
@@ -131,7 +135,7 @@ WellFormed(loc, ports) ==
      \* the node a non-leaf port (or a _path) names is a branch: no variable
      \* may sit at or above it
      /\ \A i \in DOMAIN ports :
-          (ports[i].kd.k # "leaf" /\ (ports[i].tp.t \in {"path", "omit"} \/ ports[i].tp.hasp)) =>
+          (ports[i].kd.k # "leaf" /\ (ports[i].tp.t \in {"path", "omit", "gpath"} \/ ports[i].tp.hasp)) =>
              \A a \in N : ~IsPrefixOf(a, Norm(loc \o ports[i].tp.p))
      /\ \A g \in GlobNodes(loc, ports) :
           \A x \in V : IsPrefixOf(g, x.node) =>
@@ -140,7 +144,11 @@ WellFormed(loc, ports) ==
                 /\ Norm(loc \o ports[i].tp.p) = g
      /\ \A i, j \in DOMAIN ports :
           (i # j /\ ports[i].kd.k \in {"glob", "glob2"} /\ ports[j].kd.k \in {"glob", "glob2"}) =>
-             Norm(loc \o ports[i].tp.p) # Norm(loc \o ports[j].tp.p)
+             \/ Norm(loc \o ports[i].tp.p) # Norm(loc \o ports[j].tp.p)
+             \* (two glob ports declaring the same sub-variable may share their
+             \*  store when both are wired by a path: all their variables collide)
+             \/ /\ ports[i].kd = ports[j].kd /\ ports[i].kd.k = "glob"
+                /\ ports[i].tp.t \in {"path", "gpath"} /\ ports[j].tp.t \in {"path", "gpath"}
 
 PortSeqs == UNION {[1..n -> PortSpecs] : n \in 1..MaxPorts}
 OmitOK(ports) == \A i \in DOMAIN ports : ports[i].tp.t = "omit" => ports[i].tp.p = <<PortNames[i]>>
